@@ -10,6 +10,8 @@ def _c(label, L, fixed, U=False, R=False, CA=None, caps=None, tags=(), via_line=
     if via_line is None:
         via_line = "G" in tags or "K1" in tags
     d = dict(label=label, L=L, fixed=dict(fixed), U=U, R=R, CA=CA, caps=caps, tags=tags, via_line=via_line)
+    if "T" in tags or "G" in tags or "gate" in tags:
+        d["twice"] = True
     if digits is not None:
         d["digits"] = digits
     return d
